@@ -43,7 +43,11 @@ Inductive nkind :=
 | NOp (o : op)
 | NOpT (o : N -> op)        (* operator whose code reads context.current_tick() *)
 | NSource (k : N)           (* source_stream(recv_k): the items that arrived for it *)
-| NSink (k : N).            (* for_each(|x| out_k.push((context.current_tick(), x))) *)
+| NSink (k : N)             (* for_each(|x| out_k.push((context.current_tick(), x))) *)
+| NRef (h : N) (f : list val -> val -> option (list val * list val)).
+    (* map(|x| g(#h, x)) / map(|x| g(#mut h, x)): the closure reads (and may replace) the content
+       of the handoff slot h -- [] or [v] -- for every item; None = the closure panics
+       (`as_ref().unwrap()` on an empty singleton slot) *)
 
 Record node := { n_id : N; n_kind : nkind; n_ins : list N; n_outs : list N }.
 
@@ -53,6 +57,7 @@ Inductive sendk := SFresh | SClear | SExit.
 Record subgraph := {
   sg_recv : list (N * bool);       (* handoff wire, drained from the back buffer? *)
   sg_send : list (N * sendk);
+  sg_slots : list N;               (* the Singleton / Optional handoffs among sg_send *)
   sg_nodes : list node;
 }.
 
@@ -81,24 +86,27 @@ Record world := {
   w_wake : bool;                   (* WakeState.can_start_tick *)
   w_work : bool;                   (* __dfir_work_done *)
   w_oof : bool;                    (* a `while` gate ran out of fuel *)
+  w_panic : bool;                  (* the generated code panicked (slot overfull, unwrap of an empty singleton) *)
 }.
 
 Definition set_buf (w : world) b := {| w_buf := b; w_back := w_back w; w_st := w_st w; w_out := w_out w;
-  w_tick := w_tick w; w_wake := w_wake w; w_work := w_work w; w_oof := w_oof w |}.
+  w_tick := w_tick w; w_wake := w_wake w; w_work := w_work w; w_oof := w_oof w; w_panic := w_panic w |}.
 Definition set_back (w : world) b := {| w_buf := w_buf w; w_back := b; w_st := w_st w; w_out := w_out w;
-  w_tick := w_tick w; w_wake := w_wake w; w_work := w_work w; w_oof := w_oof w |}.
+  w_tick := w_tick w; w_wake := w_wake w; w_work := w_work w; w_oof := w_oof w; w_panic := w_panic w |}.
 Definition set_st (w : world) s := {| w_buf := w_buf w; w_back := w_back w; w_st := s; w_out := w_out w;
-  w_tick := w_tick w; w_wake := w_wake w; w_work := w_work w; w_oof := w_oof w |}.
+  w_tick := w_tick w; w_wake := w_wake w; w_work := w_work w; w_oof := w_oof w; w_panic := w_panic w |}.
 Definition set_out (w : world) o := {| w_buf := w_buf w; w_back := w_back w; w_st := w_st w; w_out := o;
-  w_tick := w_tick w; w_wake := w_wake w; w_work := w_work w; w_oof := w_oof w |}.
+  w_tick := w_tick w; w_wake := w_wake w; w_work := w_work w; w_oof := w_oof w; w_panic := w_panic w |}.
 Definition set_tick (w : world) t := {| w_buf := w_buf w; w_back := w_back w; w_st := w_st w; w_out := w_out w;
-  w_tick := t; w_wake := w_wake w; w_work := w_work w; w_oof := w_oof w |}.
+  w_tick := t; w_wake := w_wake w; w_work := w_work w; w_oof := w_oof w; w_panic := w_panic w |}.
 Definition set_wake (w : world) b := {| w_buf := w_buf w; w_back := w_back w; w_st := w_st w; w_out := w_out w;
-  w_tick := w_tick w; w_wake := b; w_work := w_work w; w_oof := w_oof w |}.
+  w_tick := w_tick w; w_wake := b; w_work := w_work w; w_oof := w_oof w; w_panic := w_panic w |}.
 Definition set_work (w : world) b := {| w_buf := w_buf w; w_back := w_back w; w_st := w_st w; w_out := w_out w;
-  w_tick := w_tick w; w_wake := w_wake w; w_work := b; w_oof := w_oof w |}.
+  w_tick := w_tick w; w_wake := w_wake w; w_work := b; w_oof := w_oof w; w_panic := w_panic w |}.
 Definition set_oof (w : world) b := {| w_buf := w_buf w; w_back := w_back w; w_st := w_st w; w_out := w_out w;
-  w_tick := w_tick w; w_wake := w_wake w; w_work := w_work w; w_oof := b |}.
+  w_tick := w_tick w; w_wake := w_wake w; w_work := w_work w; w_oof := b; w_panic := w_panic w |}.
+Definition set_panic (w : world) b := {| w_buf := w_buf w; w_back := w_back w; w_st := w_st w; w_out := w_out w;
+  w_tick := w_tick w; w_wake := w_wake w; w_work := w_work w; w_oof := w_oof w; w_panic := b |}.
 
 Definition kind_op (k : nkind) (tick : N) : op :=
   match k with
@@ -106,12 +114,13 @@ Definition kind_op (k : nkind) (tick : N) : op :=
   | NOpT o => o tick
   | NSource _ => op_identity
   | NSink _ => op_identity
+  | NRef _ _ => op_identity
   end.
 
 Definition init_world (p : prog) : world :=
   {| w_buf := []; w_back := [];
      w_st := map (fun e => (fst e, op_init (kind_op (snd e) 0))) (p_ops p);
-     w_out := []; w_tick := 0; w_wake := false; w_work := true; w_oof := false |}.
+     w_out := []; w_tick := 0; w_wake := false; w_work := true; w_oof := false; w_panic := false |}.
 
 (* ------------------------------------------------------------------ running a subgraph *)
 
@@ -140,6 +149,31 @@ Definition recv_all (sg : subgraph) (w : world) : world * bufs :=
   fold_left recv_step (sg_recv sg) (w, []).
 
 (* (3) one operator; [ext] = this tick's external items per source *)
+(* the closure of a reference operator over the tick's items, threading the slot content *)
+Definition ref_fold (f : list val -> val -> option (list val * list val)) (slot : list val) (items : list val)
+  : list val * list val * bool :=
+  fold_left (fun (acc : list val * list val * bool) (x : val) =>
+               let '(slot, outs, bad) := acc in
+               match f slot x with
+               | None => (slot, outs, true)
+               | Some (slot', o) => (slot', outs ++ o, bad)
+               end) items (slot, [], false).
+
+(* pushing into a Singleton / Optional slot: a second item panics *)
+Definition slot_push (items : list val) (w : world) (e : N) : world :=
+  let cur := get e (w_buf w) in
+  let w1 := set_buf w (update e (firstn 1 (cur ++ items)) (w_buf w)) in
+  if Nat.ltb 1 (length (cur ++ items)) then set_panic w1 true else w1.
+
+Definition is_slot (sg : subgraph) (h : N) : bool := existsb (N.eqb h) (sg_slots sg).
+
+Definition emit (sg : subgraph) (acc : world * bufs) (eo : N * list val) : world * bufs :=
+  let '(w, loc) := acc in
+  let '(e, items) := eo in
+  if is_send sg e then
+    (if is_slot sg e then slot_push items w e else set_buf w (push_to e items (w_buf w)), loc)
+  else (w, push_to e items loc).
+
 Definition run_node (sg : subgraph) (ext : bufs) (acc : world * bufs) (n : node) : world * bufs :=
   let '(w, loc) := acc in
   let ins := map (fun e => get e loc) (n_ins n) in
@@ -148,17 +182,16 @@ Definition run_node (sg : subgraph) (ext : bufs) (acc : world * bufs) (n : node)
     | NSource k => (w, [get k ext])
     | NSink k =>
         (set_out w (push_to k (map (fun x => VP (VN (w_tick w)) x) (port 0 ins)) (w_out w)), [])
+    | NRef h f =>
+        let '(slot', outs, bad) := ref_fold f (get h (w_buf w)) (port 0 ins) in
+        let w1 := set_buf w (update h slot' (w_buf w)) in
+        (if bad then set_panic w1 true else w1, [outs])
     | k =>
         let o := kind_op k (w_tick w) in
         let '(s', outs) := op_step o (lookup (op_init o) (n_id n) (w_st w)) ins in
         (set_st w (update (n_id n) s' (w_st w)), outs)
     end in
-  fold_left (fun (acc : world * bufs) (eo : N * list val) =>
-               let '(w, loc) := acc in
-               let '(e, items) := eo in
-               if is_send sg e then (set_buf w (push_to e items (w_buf w)), loc)
-               else (w, push_to e items loc))
-            (combine (n_outs n) outs) (w1, loc).
+  fold_left (emit sg) (combine (n_outs n) outs) (w1, loc).
 
 Definition run_sg (ext : bufs) (sg : subgraph) (w : world) : world :=
   let w1 := prep_send sg w in
@@ -222,19 +255,45 @@ Definition run_tick (p : prog) (ext : bufs) (w : world) : world * bool :=
   (w1, had_external || work || w_wake w1).
 
 (* Dfir::run_available_sync; [ext] is what the sources hold when it is called; returns the
-   number of ticks it ran.  Fuel: a program that defers non-lazily forever never returns. *)
-Fixpoint run_avail_loop (fuel : nat) (p : prog) (ext : bufs) (w : world) (n : N) : world * N :=
+   number of ticks it ran.  [wakes] is the script of external wake-ups (a waker fired from outside
+   while the k-th tick of this call was running; missing entries = none): they set
+   WakeState.can_start_tick exactly like schedule_subgraph(true) does.
+   Fuel: a program that defers non-lazily forever never returns. *)
+Fixpoint run_avail_loop (fuel : nat) (p : prog) (wakes : list bool) (ext : bufs) (w : world) (n : N) : world * N :=
   match fuel with
   | O => (set_oof w true, n)
   | S f =>
       let '(w1, _) := run_tick p ext w in
-      if w_wake w1 then run_avail_loop f p [] (set_wake w1 false) (n + 1)
+      let w1 := if hd false wakes then set_wake w1 true else w1 in
+      if w_wake w1 then run_avail_loop f p (tl wakes) [] (set_wake w1 false) (n + 1)
       else (w1, n + 1)
   end.
 
 Definition avail_fuel : nat := 64.
-Definition run_available (p : prog) (ext : bufs) (w : world) : world * N :=
-  run_avail_loop avail_fuel p ext (set_wake w false) 0.
+Definition run_available_w (p : prog) (wakes : list bool) (ext : bufs) (w : world) : world * N :=
+  run_avail_loop avail_fuel p wakes ext (set_wake w false) 0.
+Definition run_available (p : prog) (ext : bufs) (w : world) : world * N := run_available_w p [] ext w.
+
+(* ------------------------------------------------------------------ reference closures (vocabulary) *)
+
+(* #{g} mut sv on a Singleton slot:  v := (v * 3 + x) % 1000003; emit (x, v) *)
+Definition rf_mix (slot : list val) (x : val) : option (list val * list val) :=
+  match slot with
+  | v :: _ => let n := VN ((vnum v * 3 + vnum x) mod 1000003) in Some ([n], [VP x n])
+  | [] => None
+  end.
+(* #{g} sv on a Singleton slot: emit (x, v) *)
+Definition rf_pair (slot : list val) (x : val) : option (list val * list val) :=
+  match slot with v :: _ => Some (slot, [VP x v]) | [] => None end.
+(* filter: keep x when x <= v, v read through #{g} sv *)
+Definition rf_le (slot : list val) (x : val) : option (list val * list val) :=
+  match slot with v :: _ => Some (slot, if vnum x <=? vnum v then [x] else []) | [] => None end.
+(* Optional slots: &Option<T>, no unwrap of the slot itself *)
+Definition rf_opt_rd (slot : list val) (x : val) : option (list val * list val) :=
+  Some (slot, [VP x (match slot with v :: _ => v | [] => VN 99 end)]).
+Definition rf_opt_rw (slot : list val) (x : val) : option (list val * list val) :=
+  let n := VN (((match slot with v :: _ => vnum v | [] => 5 end) * 3 + vnum x) mod 1000003) in
+  Some ([n], [VP x n]).
 
 (* ------------------------------------------------------------------ drivers used by the check *)
 
@@ -272,4 +331,4 @@ Fixpoint nlist_eqb (a b : list N) : bool :=
 Definition run_agree (avail : bool) (p : prog) (h : list bufs) (ordered : list bool)
            (impl_outs : list (list val)) (impl_obs : list N) : bool :=
   let '(w, obs) := drive avail p h in
-  negb (w_oof w) && nlist_eqb obs impl_obs && outs_agree ordered impl_outs w.
+  negb (w_oof w) && negb (w_panic w) && nlist_eqb obs impl_obs && outs_agree ordered impl_outs w.
